@@ -18,6 +18,12 @@ from pathlib import Path
 VERIF = Path(__file__).resolve().parent.parent
 SPEC = VERIF / "spec"
 HARNESS = VERIF / "harness"
+# development only (bin/selftest): judge a scratch copy of the repository with a patch applied instead of /repo, with
+# its own copy of the harness, work, evidence and replay directories, so that /repo itself is never touched
+MUT = os.environ.get("VERIF_MUT")
+OUTROOT = Path(MUT) if MUT else VERIF
+if MUT:
+    HARNESS = Path(MUT) / "harness"
 REPO = Path("/repo")
 JARS = "/opt/veriftools/tla/tla2tools.jar:/opt/veriftools/tla/CommunityModules-deps.jar"
 GUARD = "rust_dsymbols_verif"
@@ -58,7 +64,7 @@ class Ctx:
         self.quick = tier == "quick"
         self.seed = seed
         self.t0 = time.time()
-        self.work = VERIF / "work" / pid
+        self.work = OUTROOT / "work" / pid
         if self.work.exists():
             shutil.rmtree(self.work)
         self.work.mkdir(parents=True)
@@ -89,7 +95,7 @@ class Ctx:
             tail = "\n".join(l for l in r.stdout.splitlines() if "warning" not in l)[-3000:]
             raise ToolError("cargo build of the harness against /repo failed:\n" + tail)
         self.bin = HARNESS / "target" / "release" / "dsv"
-        log(f"[build] harness built against /repo working tree in {time.time()-t:.1f}s")
+        log(f"[build] harness built against {(MUT + '/repo (scratch copy with a patch)') if MUT else '/repo working tree'} in {time.time()-t:.1f}s")
 
     # ------------------------------------------------------------------ harness
     def dsv(self, *args, timeout=1800, stdin=None, out=None, totality=True):
@@ -370,7 +376,7 @@ class Ctx:
             "wall_s": round(time.time() - self.t0, 1),
             "violations": violations,
         }
-        d = VERIF / "evidence"
+        d = OUTROOT / "evidence"
         d.mkdir(exist_ok=True)
         (d / f"{self.pid}.json").write_text(json.dumps(ev, indent=1, sort_keys=True) + "\n")
 
@@ -389,7 +395,7 @@ def run_check(pid, tier, seed, body, rule):
             f"traces={ctx.traces} wall={time.time()-ctx.t0:.1f}s")
         return 0
     except Violation as v:
-        rdir = VERIF / "replays" / pid
+        rdir = OUTROOT / "replays" / pid
         rdir.mkdir(parents=True, exist_ok=True)
         rp = rdir / (v.replay_name or "replay.ndjson")
         rp.write_text("\n".join(v.replay_lines or []) + "\n")
